@@ -113,6 +113,9 @@ func Method(ctx context.Context, probe, object, vid, field string, args map[stri
 		case FaultPanic:
 			fin("panic")
 			panic(PanicText(k))
+		case FaultErrList:
+			fin("errors")
+			return reflect.Zero(info.rt), true, ErrList(k)
 		}
 	}
 	val := e.Value(plan, k, "", e.fieldTypeOf(object, field), e.nullableView(info))
